@@ -14,6 +14,8 @@ pub fn prop() -> HistProp {
     gc.gen_geom_pct = 65;
     gc.tiny_free_pct = 40;
     gc.populate_pct = 10;
+    // a third of the sessions keep access dates (the option rewrites directory entries on reads and listings)
+    gc.access_date = vec![false, false, true];
     HistProp {
         id: "C10",
         level: "exploration",
